@@ -826,7 +826,8 @@ class _StarExprParentRule(SyntaxRule):
                 return False
 
             type_ = ancestor.type
-            if type_ == 'trailer':
+            if type_ in ('trailer', 'atom_expr', 'power'):
+                # `[*a, *b][0] = 1` only assigns to the subscript.
                 return False
 
             if type_ == 'expr_stmt':
